@@ -852,13 +852,34 @@ def pair(repo: Repo) -> List[Ob]:
             acc_name = n.targets[0].id
     if acc_name is None:
         raise AnalysisError("PAIR: kron accumulation in CompositeEnvelope.combine not found")
+
+    def _family(name: str) -> Set[str]:
+        """the locals whose value reaches `name` through plain copies (`b = a`, `b, d = a, c`): pieces of a split method hand the accumulator on"""
+        fam = {name}
+        for _ in range(6):
+            for a_ in walk_no_nested(ce.node):
+                if isinstance(a_, ast.Assign) and len(a_.targets) == 1:
+                    t_, v_ = a_.targets[0], a_.value
+                    if isinstance(t_, ast.Name) and isinstance(v_, ast.Name) and t_.id in fam:
+                        fam.add(v_.id)
+                    if isinstance(t_, ast.Tuple) and isinstance(v_, ast.Tuple) and len(t_.elts) == len(v_.elts):
+                        for e_, w_ in zip(t_.elts, v_.elts):
+                            if isinstance(e_, ast.Name) and isinstance(w_, ast.Name) and e_.id in fam:
+                                fam.add(w_.id)
+        return fam
     order_name = None
+    acc_family: Set[str] = {acc_name}
+    order_family: Set[str] = set()
     for n in walk_no_nested(ce.node):
         if isinstance(n, ast.Call) and dotted(n.func) == "ProductState":
             kw = {k.arg: k.value for k in n.keywords}
             if "state" in kw and "state_objs" in kw:
                 order_name = src(kw["state_objs"])
-                (obs.append(ok("PAIR", ce, "product-state-built-from", P, n, "ProductState(state=<accumulated kron>, state_objs=<accumulated order>)")) if src(kw["state"]) == acc_name else
+                order_family = _family(order_name) if isinstance(kw["state_objs"], ast.Name) else {order_name}
+                sfam = _family(src(kw["state"])) if isinstance(kw["state"], ast.Name) else {src(kw["state"])}
+                if acc_name in sfam:
+                    acc_family = sfam
+                (obs.append(ok("PAIR", ce, "product-state-built-from", P, n, "ProductState(state=<accumulated kron>, state_objs=<accumulated order>)")) if acc_name in sfam else
                  obs.append(bad("PAIR", ce, "product-state-built-from", P, n, f"the new ProductState stores `{src(kw['state'])}` instead of the accumulated tensor `{acc_name}`")))
     if order_name is None:
         raise AnalysisError("PAIR: ProductState construction in CompositeEnvelope.combine not found")
@@ -875,12 +896,12 @@ def pair(repo: Repo) -> List[Ob]:
     slot_lists: Set[str] = set()
     i = 0
     for n in walk_no_nested(ce.node):
-        if isinstance(n, ast.Assign) and isinstance(n.value, ast.Call) and call_np(n.value) == "kron" and len(n.value.args) == 2 and src(n.targets[0]) == acc_name:
+        if isinstance(n, ast.Assign) and isinstance(n.value, ast.Call) and call_np(n.value) == "kron" and len(n.value.args) == 2 and src(n.targets[0]) in acc_family:
             i += 1
             n_pairs += 1
             a0, a1 = n.value.args
             key = f"kron-extend#{i}"
-            if src(a0) != acc_name:
+            if src(a0) != src(n.targets[0]):
                 obs.append(bad("PAIR", ce, key, P, n, f"the new factor is multiplied on the *left* (kron({src(a0)[:30]}, {src(a1)[:30]})) while its members are appended at the *end* of the order list"))
                 continue
             a1x = expand_ast(ce.node, a1)          # `own_state = so.state` … kron(acc, own_state): the snapshot is read through
@@ -891,7 +912,7 @@ def pair(repo: Repo) -> List[Ob]:
             for s in blk:
                 for x in [s] + list(walk_no_nested(s)):
                     mc = method_call(x)
-                    if mc and src(mc[0]) == order_name and mc[1] in ("extend", "append") and x.args:
+                    if mc and src(mc[0]) in order_family and mc[1] in ("extend", "append") and x.args:
                         upd = (mc[1], x.args[0])
             if upd is None:
                 # an if/else over the level may hold the kron; the update follows the if in the parent block
@@ -899,7 +920,7 @@ def pair(repo: Repo) -> List[Ob]:
                 for s in parent or []:
                     for x in [s] + list(walk_no_nested(s)):
                         mc = method_call(x)
-                        if mc and src(mc[0]) == order_name and mc[1] in ("extend", "append") and x.args:
+                        if mc and src(mc[0]) in order_family and mc[1] in ("extend", "append") and x.args:
                             upd = (mc[1], x.args[0])
             if upd is None:
                 obs.append(bad("PAIR", ce, key, P, n, f"`{acc_name}` absorbs `{src(a1)[:40]}` but `{order_name}` is not extended in the same block"))
